@@ -451,7 +451,7 @@ def check_c04(world):
             hi = w_end       # the statement lets p go on once c has been silent for the connection timeout
             n_pub = sum(1 for (t, m) in pubs_by.get(pkey, []) if a < t < hi)
             n_deq = sum(1 for t in deqs.get((pkey, ckey), []) if a < t < hi)
-            stats['c04_max_pubs_in_stall'] = max(stats['c04_max_pubs_in_stall'], n_pub)
+            stats['c04_pubs_in_stall_max'] = max(stats['c04_pubs_in_stall_max'], n_pub)
             if b - a > 10 * GAP:
                 stats['c04_long_stalls'] += 1
             if n_pub > n_deq + 1 or n_pub > 9:
@@ -459,4 +459,264 @@ def check_c04(world):
                              f'{pkey} published {n_pub} frames while its synchronized consumer {ckey} sent no request '
                              f'for {(b - a) / 1e9:.1f}s (window {(hi - a) / 1e9:.1f}s, requests still dequeued {n_deq}, '
                              f'required={required})', None, a, shape=sc['shape'], required=required))
+    return out
+
+
+def backbone_bound_ns(sc):
+    """G: upper bound for the inter-arrival gap at any synchronized node of a fault-free backbone (DESIGN.md C05)."""
+    knobs = sc.get('knobs') or {}
+    poll = knobs.get('ZMQ_POLL_TIMEOUT', 100) * 1_000_000
+    lat = (knobs.get('net') or {}).get('lat_max_ns', 2_000_000)
+    procs = 0
+    period = 0
+    hops = 0
+    for nid, spec in sc['nodes'].items():
+        if spec.get('side'):
+            continue
+        if any(s.get('eph') for s in spec.get('sources') or []) and not any(not s.get('eph') for s in spec.get('sources') or []):
+            continue       # purely ephemeral consumers are not part of the backbone
+        hops += 1
+        procs += max(spec.get('proc_ns') or [0])
+        if spec.get('src'):
+            period = max(period, spec.get('period_ns', 0))
+    return period + procs + (hops + 2) * (poll + 2 * lat) + 100_000_000
+
+
+def check_c05(world):
+    """Ephemeral listeners never hold up or alter the synchronized stream."""
+    from . import model
+    sc = world.sc
+    out = []
+    stats = world.ostats
+    nodes = sc['nodes']
+    # (a) backbone sequences equal the reference model (ephemeral contributions filtered out)
+    exp_inputs, _ = model.evaluate(sc, only_sync=True)
+    conclusive = world.stop_reason in ('settled', 'quiescent')
+    for nid, exp in exp_inputs.items():
+        eph_from = {s['from'] for s in nodes[nid].get('sources') or [] if s.get('eph')}
+        obs = []
+        for e in world.events:
+            if e[0] == 'in' and e[3] == nid and e[4] == 0:
+                want = exp[len(obs)] if len(obs) < len(exp) else {}
+                # frames of ephemeral sources are not part of the synchronized stream: with provenance they are
+                # recognised by their origin, without (data-less / system topics) by not being expected by name
+                obs.append({t: (fd['o'], fd['n'], tuple(fd['r'])) if fd['tok'] is not None else (None, None, ())
+                            for t, fd in e[7].items()
+                            if (fd['tok'] is not None and fd['o'] not in eph_from) or
+                               (fd['tok'] is None and (not eph_from or t in want))})
+        stats['c05_backbone_sequences'] += 1
+        n = min(len(obs), len(exp))
+        bad = next((i for i in range(n) if obs[i] != exp[i]), None)
+        if bad is not None:
+            out.append(V('C05', 'backbone_altered', f'{nid}: synchronized input {bad} is {_fmt_set(obs[bad])}, the '
+                         f'pipeline without ephemeral listeners yields {_fmt_set(exp[bad])}', None, None,
+                         shape=sc['shape']))
+        elif len(obs) != len(exp) and (conclusive or len(obs) > len(exp)):
+            out.append(V('C05', 'backbone_count', f'{nid}: {len(obs)} synchronized sets delivered, expected {len(exp)} '
+                         f'(stop: {world.stop_reason})', None, None, shape=sc['shape']))
+    # (b) never delays: inter-arrival gaps at synchronized nodes stay below G
+    G = backbone_bound_ns(sc)
+    stats['c05_G_ms_max'] = max(stats['c05_G_ms_max'], G // 1_000_000)
+    last = {}
+    first_in = {}
+    for e in world.events:
+        if e[0] == 'in' and e[3] in exp_inputs and e[3] not in first_in:
+            first_in[e[3]] = e[2]
+    # steady state: every node of the backbone has been reached once (connection establishment is not the
+    # ephemeral listeners' doing and is not bounded by G)
+    t_steady = max(first_in.values()) if len(first_in) == len(exp_inputs) and first_in else None
+    for e in world.events:
+        if t_steady is None:
+            break
+        if e[0] == 'in' and e[3] in exp_inputs and e[2] >= t_steady:
+            key = (e[3], e[4])
+            prev = last.get(key)
+            if prev is not None:
+                gap = e[2] - prev
+                if gap * 100 // G > stats['c05_gap_pct_of_G_max']:
+                    stats['c05_gap_pct_of_G_max'] = gap * 100 // G
+                if gap > G:
+                    out.append(V('C05', 'backbone_delayed', f'{e[3]}: {gap / 1e9:.3f}s between synchronized sets '
+                                 f'{e[5] - 1} and {e[5]}, bound {G / 1e9:.3f}s', e[1], e[2], shape=sc['shape']))
+                    break
+            last[key] = e[2]
+    # (c) a '??' listener owns no request socket and sends nothing
+    for nid, spec in nodes.items():
+        srcs = spec.get('sources') or []
+        if srcs and all(s.get('eph') == 2 for s in srcs):
+            stats['c05_doubly_ephemeral_nodes'] += 1
+            for p in world.procs.get(nid, []):
+                for s in world.net.sockets:
+                    if s.owner is p and s.type == 8:
+                        out.append(V('C05', 'doubly_ephemeral_request_socket', f'{p.key} owns a PUSH socket', None, None,
+                                     shape=sc['shape']))
+                for r in world.reqs:
+                    if r[2] == p.key:
+                        out.append(V('C05', 'doubly_ephemeral_traffic', f'{p.key} sent flow-control traffic (mid '
+                                     f'{r[4]})', r[0], r[1], shape=sc['shape']))
+                        break
+    # (d) ephemeral sets are complete for their subscription and ids never decrease
+    last_mid = {}
+    for e in world.events:
+        if e[0] != 'in':
+            continue
+        _, step, now, nid, inc, k, claimed, desc = e
+        srcs = nodes[nid].get('sources') or []
+        if not any(s.get('eph') for s in srcs):
+            continue
+        by_src, un = attribute_set(world, nid, desc)
+        for s in srcs:
+            if not s.get('eph'):
+                continue
+            got = by_src[s['from']]
+            if not got:
+                continue
+            stats['c05_ephemeral_sets'] += 1
+            evs = {p[:2] for _, _, p in got if p is not None}
+            if len(evs) > 1:
+                out.append(V('C05', 'ephemeral_mixed', f'{nid}#{inc} call {k}: ephemeral set from {s["from"]} combines '
+                             f'publish events {sorted(evs)}', step, now, shape=sc['shape']))
+                continue
+            if not evs:
+                continue
+            owner, mid = next(iter(evs))
+            rec = world.pubs.get((owner, mid))
+            sel = selected_topics(s.get('sub'), rec['topics'] or [])
+            expected = set(sel.values())
+            names = {t for t, _, _ in got} | {t for t, fd in un if t in expected and fd['tok'] is None}
+            if names != expected:
+                out.append(V('C05', 'ephemeral_incomplete', f'{nid}#{inc} call {k}: from {s["from"]} (id {mid}, topics '
+                             f'{rec["topics"]}, subscription {s.get("sub")!r}) expected {sorted(expected)} got '
+                             f'{sorted(names)}', step, now, shape=sc['shape']))
+            key = (nid, inc, s['from'], owner)
+            prev = last_mid.get(key)
+            if prev is not None and mid < prev:
+                out.append(V('C05', 'ephemeral_order', f'{nid}#{inc} call {k}: id {mid} from {owner} after id {prev}',
+                             step, now, shape=sc['shape']))
+            last_mid[key] = mid
+    return out
+
+
+def heal_bound_ns(sc):
+    """H: progress bound after the last fault (DESIGN.md C06)."""
+    knobs = sc.get('knobs') or {}
+    poll = knobs.get('ZMQ_POLL_TIMEOUT', 100) * 1_000_000
+    ct = knobs.get('ZMQ_CONN_TIMEOUT', 5000) * 1_000_000
+    net = knobs.get('net') or {}
+    lat = net.get('lat_max_ns', 2_000_000)
+    conn = net.get('conn_max_ns', 5_000_000)
+    procs = sum(max(spec.get('proc_ns') or [0]) for spec in sc['nodes'].values() if not spec.get('side'))
+    period = max([spec.get('period_ns', 0) for spec in sc['nodes'].values() if spec.get('src')] or [0])
+    hops = sum(1 for spec in sc['nodes'].values() if not spec.get('side'))
+    start = max([spec.get('start_delay_ns', 0) for spec in sc['nodes'].values()] or [0])
+    return ct + 100_000_000 + conn + (hops + 3) * (poll + 2 * lat) + 2 * procs + period + 2_000_000_000, start
+
+
+def fault_end_ns(world):
+    """Virtual time at which the last injected fault was over (restart done / stall over / victim dead)."""
+    t = None
+    for e in world.events:
+        if e[0] == 'fault':
+            if e[3] == 'stall':
+                te = e[2] + e[5]
+            else:
+                te = e[2]
+            t = te if t is None else max(t, te)
+    return t
+
+
+def check_c06(world):
+    """No deadlock under a fair schedule; progress at every live synchronized node within H after the last fault;
+    ordering still holds; a publisher whose required output is missing waits for it."""
+    sc = world.sc
+    out = []
+    stats = world.ostats
+    nodes = sc['nodes']
+    H, start = heal_bound_ns(sc)
+    end = world.final_now
+    t_f = fault_end_ns(world)
+    sync_nodes = [n for n in sc['order'] if any(not s.get('eph') for s in nodes[n].get('sources') or [])
+                  and not nodes[n].get('side')]
+    ins = {}
+    for e in world.events:
+        if e[0] == 'in':
+            ins.setdefault(e[3], []).append(e[2])
+    # which faults actually happened (a planned kill may find its victim not started yet)
+    planned = sc.get('faults') or []
+    happened = [e for e in world.events if e[0] == 'fault']
+    permanently_dead = set()
+    for f in planned:
+        if f['kind'] == 'kill' and f.get('restart_after_ns') is None:
+            permanently_dead.add(f['node'])
+    cls = sc.get('fault_class', 'none')
+    if t_f is None:
+        t_ref = EPOCH_NS + start
+    else:
+        t_ref = t_f
+        stats[f'c06_class_{cls}'] += 1
+    if end < t_ref + H:
+        stats['c06_inconclusive'] += 1
+    else:
+        for n in sync_nodes:
+            if n in permanently_dead:
+                continue
+            if world.live_proc(n) is None:
+                continue
+            # a node downstream of a permanently dead required node cannot be expected to progress; the generator only
+            # lets non-required sinks die for good, so everything else must move
+            got = [t for t in ins.get(n, []) if t_ref < t <= t_ref + H]
+            stats['c06_progress_checks'] += 1
+            if not got:
+                last = max([t for t in ins.get(n, []) if t <= t_ref], default=None)
+                out.append(V('C06', 'no_progress',
+                             f'{n}: no new frame within {H / 1e9:.2f}s after the last fault ended at '
+                             f'{(t_ref - EPOCH_NS) / 1e9:.3f}s (fault class {cls}; last frame before: '
+                             f'{"never" if last is None else f"{(last - EPOCH_NS) / 1e9:.3f}s"}; stop {world.stop_reason})',
+                             None, t_ref, fault=cls, shape=sc['shape']))
+            else:
+                d = (got[0] - t_ref) * 100 // H
+                stats['c06_heal_pct_of_H_max'] = max(stats['c06_heal_pct_of_H_max'], d)
+        # keeps moving until the end: no gap longer than H anywhere after t_ref
+        for n in sync_nodes:
+            if n in permanently_dead or world.live_proc(n) is None:
+                continue
+            ts = [t for t in ins.get(n, []) if t > t_ref] + [end]
+            for a, b in zip(ts, ts[1:]):
+                if b - a > H:
+                    out.append(V('C06', 'stuck', f'{n}: {((b - a) / 1e9):.2f}s without a new frame after '
+                                 f'{(a - EPOCH_NS) / 1e9:.3f}s (bound {H / 1e9:.2f}s, fault class {cls})', None, a,
+                                 fault=cls, shape=sc['shape']))
+                    break
+    # ordering guarantee still holds
+    for v in check_c02(world):
+        if v['oracle'] in ('order', 'duplicate_id', 'delivered_twice', 'origin_order'):
+            v = dict(v)
+            v['property'] = 'C06'
+            v['oracle'] = 'ordering_' + v['oracle']
+            out.append(v)
+    # a publisher whose required output is missing waits for it
+    kills = [e for e in happened if e[3] == 'kill']
+    restarts = [e for e in happened if e[3] == 'restart']
+    for ke in kills:
+        victim = ke[4]
+        t_k = ke[2]
+        t_r = min([r[2] for r in restarts if r[4] == victim and r[2] >= t_k], default=end)
+        for s in nodes[victim].get('sources') or []:
+            p = s['from']
+            req = nodes[p].get('outputs_required') or []
+            if isinstance(req, str):
+                req = [x.strip() for x in req.split(',')]
+            if victim not in req or s.get('eph'):
+                continue
+            pp = world.live_proc(p)
+            if pp is None:
+                continue
+            lo = t_k + 1_000_000_000
+            n_pub = sum(1 for (owner, mid), rec in world.pubs.items() if owner == pp.key and lo < rec['t0'] < t_r)
+            stats['c06_required_missing_windows'] += 1
+            if n_pub:
+                out.append(V('C06', 'required_missing_publish',
+                             f'{pp.key} published {n_pub} frame(s) between {(lo - EPOCH_NS) / 1e9:.3f}s and '
+                             f'{(t_r - EPOCH_NS) / 1e9:.3f}s although its required output {victim} was dead '
+                             f'(killed at {(t_k - EPOCH_NS) / 1e9:.3f}s)', None, t_k, shape=sc['shape']))
     return out
